@@ -319,19 +319,36 @@ def _push_block(ctx, lib, fn, item, cap, nel):
     if not ok:
         return
     wbb = ws[0]["bb"]
-    # ---- KNOB-EVICT: eviction loop
+    # ---- KNOB-EVICT: eviction loop.  The duty may be part of push_block (today) or a public method of its own that every caller
+    # of push_block runs first (then the loop clauses are checked on that method and the ordering clauses in every caller)
     dbs = S.named("dropped_block", H)
     uis = S.named("use_index", H)
+    eb, ES = b, S
+    separate = False
+    if not uis:
+        cands = []
+        for x in fn.values():
+            if x is b:
+                continue
+            XS = Sites(lib, x)
+            if any(x.in_cycle(s_["bb"]) for s_ in XS.named("use_index", H)) and XS.named("dropped_block", H):
+                cands.append((x, XS))
+        if len(cands) == 1:
+            eb, ES = cands[0]
+            separate = True
+            dbs = ES.named("dropped_block", H)
+            uis = ES.named("use_index", H)
+    eroot = ES.root
     head = P(F(Par(1), "head_idx"))
-    ok = len(dbs) == 1 and len(uis) == 1 and m(Par(1), uis[0]["args"][0]) and m(head, uis[0]["args"][1]) and b.in_cycle(uis[0]["bb"])
+    ok = len(dbs) == 1 and len(uis) == 1 and m(Par(1), uis[0]["args"][0]) and m(head, uis[0]["args"][1]) and eb.in_cycle(uis[0]["bb"])
     ctx.check(ok, "KNOB-EVICT", b, "evict-loop", b.span,
               "when a block leaves the window, push_block must mark its remaining vacant slots used: loop use_index(head) while the head lies in that block")
     if ok:
         ubb = uis[0]["bb"]
-        closed = P(C(H + "::dropped_block", Par(1), site=(b.path, dbs[0]["bb"])))
+        closed = P(C(H + "::dropped_block", Par(1), site=(eb.path, dbs[0]["bb"])))
         from .pat import OneOf
         end_idx = OneOf(B("Mul", B("Add", closed, K(1)), bl), B("Add", B("Mul", closed, bl), bl))
-        brk = switches_on(root, lambda d: d[0] == "bin" and d[1] in ("Le", "Ge", "Lt", "Gt") and
+        brk = switches_on(eroot, lambda d: d[0] == "bin" and d[1] in ("Le", "Ge", "Lt", "Gt") and
                           ((m(end_idx, d[2]) and m(head, d[3])) or (m(head, d[2]) and m(end_idx, d[3]))))
         okb = len(brk) == 1
         if okb:
@@ -346,20 +363,75 @@ def _push_block(ctx, lib, fn, item, cap, nel):
                 stop, go = ff, tt
             else:
                 stop = go = None
-            okb = stop is not None and b.edge_guards((sbi, go), ubb) and ubb not in b.reach(stop, avoid_blocks=[sbi])
-        ctx.check(okb, "KNOB-EVICT", b, "evict-bound", b.span,
+            # ... and the stop arm LEAVES the loop (the test is not evaluated again: `continue` instead of `break` would spin on an
+            # unchanged head)
+            okb = stop is not None and eb.edge_guards((sbi, go), ubb) and ubb not in eb.reach(stop, avoid_blocks=[sbi]) and \
+                sbi not in eb.reach(stop)
+        ctx.check(okb, "KNOB-EVICT", eb, "evict-bound", eb.span,
                   "eviction stops exactly when head >= (closed_block + 1) * block_len (an element index compared with an element index)")
         # guarded by dropped_block Some and head Some
-        dsw = switches_on(root, lambda d: d[0] == "discr" and d[1][0] == "call" and d[1][3] == (b.path, dbs[0]["bb"]))
-        hsw = switches_on(root, lambda d: d[0] == "discr" and m(F(Par(1), "head_idx"), d[1]))
-        okg = len(dsw) == 1 and b.edge_guards((dsw[0][0], opt_arms(dsw[0][1])[0]), ubb) and \
-            any(b.edge_guards((h[0], opt_arms(h[1])[0]), ubb) for h in hsw)
-        ctx.check(okg, "KNOB-EVICT", b, "evict-guards", b.span, "eviction runs only when a block is dropped and while the vacant list is non-empty")
-        # ordering: the eviction loop precedes the growth (num_blocks += 1 not reachable back into the loop; loop reachable before)
-        ctx.check(wbb in b.reach(ubb) and ubb not in b.reach(wbb), "KNOB-EVICT", b, "evict-before-grow", b.span,
-                  "the dropped block's slots must be removed from the list BEFORE the ring slots are reused for the new block")
-        ctx.check(b.dominates(dbs[0]["bb"], wbb), "KNOB-EVICT", b, "dropped-before-grow", b.span,
-                  "dropped_block() must be evaluated before num_blocks is incremented")
+        dsw = switches_on(eroot, lambda d: d[0] == "discr" and d[1][0] == "call" and d[1][3] == (eb.path, dbs[0]["bb"]))
+        hsw = switches_on(eroot, lambda d: d[0] == "discr" and m(F(Par(1), "head_idx"), d[1]))
+        some_edge = (dsw[0][0], opt_arms(dsw[0][1])[0]) if len(dsw) == 1 else None
+        if some_edge is None:
+            # `let closed = self.dropped_block()?;`: the Continue arm (discriminant 0) of Try::branch is the Some arm
+            tsw = switches_on(eroot, lambda d: d[0] == "discr" and d[1][0] == "call" and isinstance(d[1][1], str) and
+                              core.callee_base(d[1][1]) == "core::ops::Try::branch" and d[1][2] and d[1][2][0][0] == "call" and
+                              d[1][2][0][3] == (eb.path, dbs[0]["bb"]))
+            if len(tsw) == 1:
+                some_edge = (tsw[0][0], opt_arms(tsw[0][1])[1])
+        okg = some_edge is not None and eb.edge_guards(some_edge, ubb) and \
+            any(eb.edge_guards((h[0], opt_arms(h[1])[0]), ubb) for h in hsw)
+        ctx.check(okg, "KNOB-EVICT", eb, "evict-guards", eb.span, "eviction runs only when a block is dropped and while the vacant list is non-empty")
+        if not separate:
+            # ordering: the eviction loop precedes the growth (num_blocks += 1 not reachable back into the loop; loop reachable before)
+            ctx.check(wbb in b.reach(ubb) and ubb not in b.reach(wbb), "KNOB-EVICT", b, "evict-before-grow", b.span,
+                      "the dropped block's slots must be removed from the list BEFORE the ring slots are reused for the new block")
+            ctx.check(b.dominates(dbs[0]["bb"], wbb), "KNOB-EVICT", b, "dropped-before-grow", b.span,
+                      "dropped_block() must be evaluated before num_blocks is incremented")
+        else:
+            # the eviction method changes neither the window nor the block count, and EVERY caller of push_block runs it first, on
+            # the same helper, on every path
+            ew = [s_ for s_ in ES.stores if any(m(F(Par(1), f_), s_["tgt"]) for f_ in ("num_blocks", "block_len", "num_free_blocks"))]
+            ctx.check(not ew, "KNOB-EVICT", eb, "evict-keeps-window", eb.span, "the eviction method must not change num_blocks / block_len / num_free_blocks")
+            callers = 0
+            for cb in lib.bodies.values():
+                if cb.is_closure or cb.j.get("impl_adt") == H:
+                    continue
+                CS = Sites(lib, cb)
+                pbs = [s_ for s_ in CS.named("push_block", H)]
+                if not pbs:
+                    continue
+                callers += 1
+                evs = [s_ for s_ in CS.calls if s_["c"].body_path == eb.path]
+                for pb in pbs:
+                    # (a caller may run it only on its own `if let Some(..) = helper.dropped_block()` path: when no block is dropped
+                    # the method does nothing; so the paths are explored under "dropped_block() is Some")
+                    def dropped(t):
+                        return t[0] == "call" and isinstance(t[1], str) and core.callee_base(t[1]) == H + "::dropped_block"
+
+                    def before(e_bb):
+                        v0 = cond.explore(CS.root, [0], [], stop=[e_bb], some_atoms=[(dropped, True)])
+                        if v0 is None or pb["bb"] in v0:
+                            return False
+                        # second round of a loop: push_block reachable from itself without passing the eviction call
+                        nxt = [s2 for s2 in cb.succ(pb["bb"]) if s2 != e_bb]
+                        v1 = cond.explore(CS.root, nxt, [], stop=[e_bb], some_atoms=[(dropped, True)]) if nxt else set()
+                        return v1 is not None and pb["bb"] not in v1
+                    okc = any(core.same(e_["args"][0], pb["args"][0]) and before(e_["bb"]) for e_ in evs)
+                    if not okc:
+                        # the first block of a NEW helper: num_blocks is 0 < 1 <= num_free_blocks, nothing can have left the window
+                        h_ = pb["args"][0]
+                        srcs = [h_]
+                        if h_[0] == "var":
+                            srcs = [pnorm(t_) for k_, t_, bb_ in CS.root.T.container_defs(h_[2]) if k_ in ("call", "rv")]
+                        fresh = bool(srcs) and all(any(x[0] == "call" and isinstance(x[1], str) and core.callee_base(x[1]) == H + "::new"
+                                                       for x in core.walk(t_)) for t_ in srcs)
+                        okc = fresh and len([q for q in pbs if core.same(q["args"][0], h_)]) == 1 and not cb.in_cycle(pb["bb"])
+                    ctx.check(okc, "KNOB-EVICT", cb, "evict-before-grow", cb.loc(pb["bb"]),
+                              "every caller of push_block must first run %s on the same helper (on every path): the dropped block's slots "
+                              "leave the list BEFORE the ring slots are reused" % eb.name)
+            ctx.check(callers >= 1, "KNOB-EVICT", b, "evict-callers", b.span, "callers of push_block expected")
     # ---- H-PUSH: old_len read before the increment
     nes = S.named("num_elements", H)
     olds = [s for s in nes if b.dominates(s["bb"], wbb) and s["bb"] != (sw[0][0] if sw else -1)]
